@@ -38,7 +38,7 @@ pub fn run(ctx: &mut Ctx) {
     if ctx.shard == 0 {
         spec_vectors(ctx);
     }
-    let total = ctx.n(60_000, 1_500_000);
+    let total = ctx.n(60_000, 250_000);
     let key = SymmetricKey::new();
     for case in ctx.cases(total) {
         ctx.begin_case(case);
